@@ -117,8 +117,20 @@ Definition opt_flags_gen (fixed : bool) (tf : tfhd) (tr : trun) : tfhd * trun :=
   | _ => (tf, tr)
   end.
 
+(* the pinned text of the fourth block (known_findings/C05.json, C05-F7): the field goes whenever all offsets are 0 *)
+Definition opt_cto_pinned (tf : tfhd) (tr : trun) : tfhd * trun :=
+  if has_cto tr && forallb (fun s => Z.eqb (s_cto s) 0) (tr_samples tr)
+  then (tf, tr_clear tr B_CTO)
+  else (tf, tr).
+
+(* the repaired text (fix 6c7a902): DecodeTrun refuses more than MAX_BARE samples without any per-sample field, so
+   `if allZeroCTO && (len(trun.Samples) <= 1024 || otherField)`; the three Has* calls see the flags as the earlier
+   blocks left them *)
+Definition MAX_BARE : N := 1024.
+Definition other_field (tr : trun) : bool := has_dur tr || has_size tr || has_sflags tr.
 Definition opt_cto (tf : tfhd) (tr : trun) : tfhd * trun :=
   if has_cto tr && forallb (fun s => Z.eqb (s_cto s) 0) (tr_samples tr)
+     && ((N.of_nat (length (tr_samples tr)) <=? MAX_BARE) || other_field tr)
   then (tf, tr_clear tr B_CTO)
   else (tf, tr).
 
@@ -137,6 +149,17 @@ Definition optimize_gen (fixed : bool) (tf : tfhd) (tr : trun) : res (tfhd * tru
 Definition FIXED_FSF : bool := true.
 Definition optimize := optimize_gen FIXED_FSF.
 Definition optimize_pinned := optimize_gen false.
+(* the text before fix 6c7a902 (C05-F7): the repaired flags block, the pinned composition-offset block *)
+Definition optimize_f7 (tf : tfhd) (tr : trun) : res (tfhd * trun) :=
+  match tr_samples tr with
+  | [] => Err
+  | [_] => Ok (tf, tr)
+  | _ =>
+      let '(tf1, tr1) := opt_dur tf tr in
+      let '(tf2, tr2) := opt_size tf1 tr1 in
+      let '(tf3, tr3) := opt_flags_gen true tf2 tr2 in
+      Ok (opt_cto_pinned tf3 tr3)
+  end.
 
 (* ------------------------------------------------------------------ the wire view of a trun *)
 (* what DecodeTrun(EncodeTrun t) holds in memory (structure level): absent per-sample fields are 0,
